@@ -47,6 +47,8 @@ struct World {
     tasks: Vec<Task>,
     ann_ts: u64,
     chans: Vec<crossbeam_channel::Receiver<radicle::node::FetchResult>>,
+    /// the direction of each peer's current connection as the wire knows it (not as the service recorded it)
+    links: std::collections::HashMap<usize, Link>,
 }
 
 impl World {
@@ -93,7 +95,7 @@ impl World {
             alice.seed(rid, Scope::All).unwrap();
         }
         alice.initialize();
-        World { alice, devices, nids, rids, docs, npeers, tasks: Vec::new(), ann_ts: 10, chans: Vec::new() }
+        World { alice, devices, nids, rids, docs, npeers, tasks: Vec::new(), ann_ts: 10, chans: Vec::new(), links: Default::default() }
     }
 
     fn addr(&self, p: usize) -> radicle::node::Address {
@@ -136,6 +138,7 @@ impl World {
                     Some(s) if s.link.is_outbound() && (s.is_initial() || s.is_connecting()) => Link::Outbound,
                     _ => Link::Inbound,
                 };
+                self.links.insert(p, link);
                 self.alice.service.connected(self.nids[p], addr, link);
                 let msg = self.node_ann(p);
                 self.alice.service.received_message(self.nids[p], msg);
@@ -156,7 +159,8 @@ impl World {
             "disconnect" => {
                 let p = us(1);
                 let nid = self.nids[p];
-                let link = self.alice.service.sessions().get(&nid).map(|s| s.link).unwrap_or(Link::Inbound);
+                // the wire reports the link of the connection that went away
+                let link = self.links.remove(&p).or(self.alice.service.sessions().get(&nid).map(|s| s.link)).unwrap_or(Link::Inbound);
                 self.alice.service.disconnected(nid, link, &DisconnectReason::Command);
             }
             "stale_disconnect" => {
@@ -164,7 +168,7 @@ impl World {
                 // that is not the session's current link; the service must ignore it
                 let p = us(1);
                 let nid = self.nids[p];
-                if let Some(link) = self.alice.service.sessions().get(&nid).map(|s| s.link) {
+                if let Some(link) = self.links.get(&p).copied().or(self.alice.service.sessions().get(&nid).map(|s| s.link)) {
                     let other = if link.is_inbound() { Link::Outbound } else { Link::Inbound };
                     self.alice.service.disconnected(nid, other, &DisconnectReason::Conflict);
                 }
